@@ -27,6 +27,7 @@ struct ClientConfig {
     mq::Props connect_props;
     bool use_authenticator = false;
     std::string auth_method = "m1";
+    bool auth_posted = false;       // the authenticator completes asynchronously (posted), not from inside async_auth
 };
 
 struct Completion {
@@ -45,8 +46,8 @@ struct ClientObserver {
     virtual void log_tcp_connect(error_code ec, const std::string& ip, uint16_t port) = 0;
     virtual void log_connack(uint8_t rc, bool session_present, const mq::Props& props) = 0;
     virtual void log_disconnect(uint8_t rc, const mq::Props& props) = 0;
-    // authenticator: returns (ec != 0 => fail, data)
-    virtual std::pair<bool, std::string> auth_step(int step, const std::string& data) = 0;
+    // authenticator: returns (ec != 0 => fail, data); *posted = complete through post() instead of inside async_auth
+    virtual std::pair<bool, std::string> auth_step(int step, const std::string& data, bool* posted) = 0;
 };
 
 struct IClient {
